@@ -60,9 +60,9 @@ def get? (f : List (String × β)) (k : String) : Option β :=
   (f.find? (fun p => p.1 == k)).map (·.2)
 
 /-- `d[k] = v`: keeps the position of an existing key, appends a new one. -/
-def set (f : List (String × β)) (k : String) (v : β) : List (String × β) :=
-  if f.any (fun p => p.1 == k) then f.map (fun p => if p.1 == k then (k, v) else p)
-  else f ++ [(k, v)]
+def set : List (String × β) → String → β → List (String × β)
+  | [], k, v => [(k, v)]
+  | p :: f, k, v => if p.1 = k then (k, v) :: f else p :: set f k v
 
 /-- `d.update(g)`. -/
 def update (f g : List (String × β)) : List (String × β) :=
@@ -333,6 +333,10 @@ inductive Prog where
   | raise
   | try_ (p : Prog)
   | probe (m : Mgr)
+  /-- `c()` in the running thread, for a detour-kind manager `m`.  If the thread's current mapping
+  sends `c` to a *function*, the function runs `p` (it may raise, create `c` again, open nested
+  scopes); otherwise an object is created and `p` is not run. -/
+  | call (m : Mgr) (c : String) (p : Prog)
   deriving Repr, Inhabited
 
 inductive Outcome where
@@ -349,6 +353,40 @@ structure Result where
   world : World
   outcome : Outcome
   obs : List Obs
+
+/-- Names of the detour destinations that are functions (shared with the harness; everything else
+is a class). -/
+def fnDests : List String := ["fn1", "fn2"]
+
+def isFnDest : Val → Bool
+  | .atom (.str d) => fnDests.contains d
+  | _ => false
+
+def topFrame (m : Mgr) (t : Nat) (w : World) : Frame :=
+  (((w.sel m.storage t).stk m.key).getD []).headD []
+
+/-- The function that `c()` calls in thread `t`, if the thread's mapping sends `c` to a function
+(class_detour.py `_maybe_detoured_new`, the `else` branch). -/
+def callDest (m : Mgr) (c : String) (t : Nat) (w : World) : Option Val :=
+  match (w.sel m.storage t).stk m.key with
+  | some (f :: _) =>
+    match Dict.get? f c with
+    | some d => if isFnDest d then some d else none
+    | none => none
+  | _ => none
+
+/-- `_global_detour_context.current_mappings[c] = v`: a write into the top frame of the thread's
+detour stack (lost if the stack is empty: `current_mappings` then returns a fresh dict). -/
+def setTop (m : Mgr) (c : String) (v : Val) (t : Nat) (w : World) : World :=
+  match (w.sel m.storage t).stk m.key with
+  | some (f :: l) =>
+    w.put m.storage t { w.sel m.storage t with
+      stk := upd (w.sel m.storage t).stk m.key (some (Dict.set f c v :: l)) }
+  | _ => w
+
+def destAtom : Val → Atom
+  | .atom a => a
+  | _ => .none
 
 /-- Big-step execution of a well-nested program by thread `t`. -/
 def exec (t : Nat) : Prog → World → Result
@@ -371,6 +409,13 @@ def exec (t : Nat) : Prog → World → Result
     let r := exec t p w
     ⟨r.world, .normal, r.obs⟩
   | .probe m, w => ⟨w, .normal, [⟨m.name, getter m t w⟩]⟩
+  | .call m c p, w =>
+    match callDest m c t w with
+    | none => ⟨w, .normal, [⟨"new:" ++ c, .atom (.str (mappingDest (topFrame m t w) c))⟩]⟩
+    | some d =>
+      -- `try: mappings[cls] = cls; return dest(cls, …)  finally: mappings[cls] = dest`
+      let r := exec t p (setTop m c (.atom (.str c)) t w)
+      ⟨setTop m c d t r.world, r.outcome, ⟨"call:" ++ c, .atom (destAtom d)⟩ :: r.obs⟩
 
 /-! ### Execution under interference
 
@@ -414,6 +459,14 @@ def execI (t : Nat) : Prog → Env → World → ResultI
   | .probe m, env, w =>
     let (env1, w0) := interfere env w
     ⟨env1, w0, .normal, [⟨m.name, getter m t w0⟩]⟩
+  | .call m c p, env, w =>
+    let (env1, w0) := interfere env w
+    match callDest m c t w0 with
+    | none => ⟨env1, w0, .normal, [⟨"new:" ++ c, .atom (.str (mappingDest (topFrame m t w0) c))⟩]⟩
+    | some d =>
+      let r := execI t p env1 (setTop m c (.atom (.str c)) t w0)
+      let (env2, w2) := interfere r.env r.world
+      ⟨env2, setTop m c d t w2, r.outcome, ⟨"call:" ++ c, .atom (destAtom d)⟩ :: r.obs⟩
 
 /-- Does the manager, called with this argument, keep its state in the calling thread only? -/
 def isLocal (m : Mgr) (a : Arg) : Bool := storageOf m a != .processWide
@@ -424,5 +477,6 @@ def Prog.threadLocal : Prog → Bool
   | .seq p q => p.threadLocal && q.threadLocal
   | .scope m a p => isLocal m a && p.threadLocal
   | .try_ p => p.threadLocal
+  | .call _ _ p => p.threadLocal
 
 end Pg.C17
